@@ -450,7 +450,7 @@ func c08Forwarded(c *engine.Ctx, g, next *ssa.Function, id, seq ssa.Value) bool 
 		for _, h := range engine.WithAnon(f) {
 			engine.Instrs(h, func(i ssa.Instruction) {
 				al, ok := i.(*ssa.Alloc)
-				if !ok || !strings.HasSuffix(al.Type().String(), "rpc.Request") || !strings.Contains(al.Comment, "complit") && al.Comment != "req" {
+				if !ok || !strings.HasSuffix(al.Type().String(), "rpc.Request") {
 					return
 				}
 				id, sq := engine.StructFieldValue(al, "MsgID"), engine.StructFieldValue(al, "SeqNo")
